@@ -5,21 +5,26 @@
 (*            relative to the most advanced replica)                                            *)
 (* ap[r]    : number of entries replica r has applied ; rs[r] its state ; rr[r] its results      *)
 (* Apply    : one entry through Store!ApplyAt - the ONLY inputs are (state, command)            *)
-(* Install  : a lagging replica restores a snapshot taken by another one: the whole abstract    *)
-(*            state (tables, index table, tombstones) is copied; its results for the skipped    *)
+(* Take     : a replica takes a snapshot: the whole abstract state (tables, index table,        *)
+(*            tombstones) AS OF THAT POINT OF THE LOG is captured (fsm.FSM.Snapshot: a memdb     *)
+(*            snapshot); the replica goes on applying entries while the snapshot is still being  *)
+(*            written out (Persist runs concurrently with later applies in hashicorp/raft)       *)
+(* Install  : a lagging replica restores the captured snapshot - whenever it was persisted, it   *)
+(*            is the state at the point it was TAKEN; the replica's results for the skipped      *)
 (*            entries are unknown                                                                *)
 EXTENDS StoreCmds, Json
 CONSTANTS Replica, MaxLog
-VARIABLES log, ap, rs, rr
+VARIABLES log, ap, rs, rr, snap
 
-vars == <<log, ap, rs, rr>>
+vars == <<log, ap, rs, rr, snap>>
+NoSnap == [at |-> 0]
 Skipped == [t |-> "skipped"]
 Lead == CHOOSE r \in Replica : \A q \in Replica : ap[q] <= ap[r]
 
-RInit == log = <<>> /\ ap = [r \in Replica |-> 0] /\ rs = [r \in Replica |-> InitState] /\ rr = [r \in Replica |-> <<>>]
+RInit == log = <<>> /\ ap = [r \in Replica |-> 0] /\ rs = [r \in Replica |-> InitState] /\ rr = [r \in Replica |-> <<>>] /\ snap = NoSnap
 Propose == /\ Len(log) < MaxLog /\ ap[Lead] = Len(log)
            /\ \E c \in Cmds(rs[Lead]) : log' = Append(log, c)
-           /\ UNCHANGED <<ap, rs, rr>>
+           /\ UNCHANGED <<ap, rs, rr, snap>>
 ApplyNext(r) == /\ ap[r] < Len(log)
                 /\ LET i == ap[r] + 1
                        res == ApplyAt(rs[r], i, log[i])
@@ -27,16 +32,24 @@ ApplyNext(r) == /\ ap[r] < Len(log)
                    IN /\ rs' = [rs EXCEPT ![r] = s1]
                       /\ rr' = [rr EXCEPT ![r] = Append(@, res.res)]
                       /\ ap' = [ap EXCEPT ![r] = i]
-                /\ UNCHANGED log
-Install(r, from) == /\ ap[from] > ap[r]
-                    /\ rs' = [rs EXCEPT ![r] = rs[from]]
-                    /\ rr' = [rr EXCEPT ![r] = @ \o [k \in 1..(ap[from] - ap[r]) |-> Skipped]]
-                    /\ ap' = [ap EXCEPT ![r] = ap[from]]
-                    /\ UNCHANGED log
-RNext == Propose \/ \E r \in Replica : ApplyNext(r) \/ \E from \in Replica \ {r} : Install(r, from)
+                /\ UNCHANGED <<log, snap>>
+Take(from) == /\ snap = NoSnap /\ ap[from] > 0
+              /\ snap' = [at |-> ap[from], st |-> rs[from]]
+              /\ UNCHANGED <<log, ap, rs, rr>>
+Install(r) == /\ snap # NoSnap
+              /\ IF snap.at > ap[r]
+                 THEN /\ rs' = [rs EXCEPT ![r] = snap.st]
+                      /\ rr' = [rr EXCEPT ![r] = @ \o [k \in 1..(snap.at - ap[r]) |-> Skipped]]
+                      /\ ap' = [ap EXCEPT ![r] = snap.at]
+                 ELSE UNCHANGED <<ap, rs, rr>>          \* a snapshot that is not ahead of the replica is discarded
+              /\ snap' = NoSnap
+              /\ UNCHANGED log
+RNext == Propose \/ \E r \in Replica : ApplyNext(r) \/ Take(r) \/ Install(r)
 RSpec == RInit /\ [][RNext]_vars
 
 Agree == \A a, b \in Replica :
            /\ ap[a] = ap[b] => rs[a] = rs[b]
            /\ \A i \in 1..Len(rr[a]) : i <= Len(rr[b]) /\ rr[a][i] # Skipped /\ rr[b][i] # Skipped => rr[a][i] = rr[b][i]
+\* a captured snapshot is the state of the log prefix it was taken at - whatever its taker applied afterwards
+SnapIsCut == snap # NoSnap => \A r \in Replica : ap[r] = snap.at => rs[r] = snap.st
 =============================================================================
